@@ -220,6 +220,23 @@ def _unpack_call(v) -> bool:
     return isinstance(v, ast.Call) and ast.unparse(v.func).split(".")[-1] in ("unpack", "unpack_from")
 
 
+def _reaches(f, defs, kill) -> bool:
+    """some structured path of f executes one of the unpacking assignments `defs` and later the re-assignment `kill` (the two may sit
+    in different arms of a decision: then the wire value never meets the re-assignment)"""
+    try:
+        paths = A.gpaths(f)
+    except OverflowError:
+        return True
+    for q in paths:
+        seen = False
+        for st in q.stmts:
+            if any(st is d for d in defs):
+                seen = True
+            elif st is kill and seen:
+                return True
+    return False
+
+
 def wire_field_replaced(ctx, rule: str, files) -> int:
     """wire-field-replaced: a local that `struct.unpack` / `unpack_from` filled from the input bytes is later re-assigned from something
     that does not depend on its wire value, outside any branch whose test looks at the wire value.  The parser then accepts every
@@ -231,12 +248,14 @@ def wire_field_replaced(ctx, rule: str, files) -> int:
             if not isinstance(f, ast.FunctionDef):
                 continue
             wire = {}
+            wire_nodes: dict = {}
             for n in ast.walk(f):
                 if isinstance(n, ast.Assign) and _unpack_call(n.value):
                     for t_ in n.targets:
                         for e in (t_.elts if isinstance(t_, (ast.Tuple, ast.List)) else [t_]):
                             if isinstance(e, ast.Name) and e.id != "_":
                                 wire.setdefault(e.id, n.lineno)
+                                wire_nodes.setdefault(e.id, []).append(n)
             if not wire:
                 continue
             yield f, None, None
@@ -261,10 +280,10 @@ def wire_field_replaced(ctx, rule: str, files) -> int:
                                 guarded = True
                                 break
                             cur = par
-                        if not guarded:
+                        if not guarded and _reaches(f, wire_nodes.get(e.id, []), n):
                             yield f, e.id, n
     pos = ast.parse("def parse(cls, data):\n    (a, b) = unpack('<2H', data)\n    if a in T:\n        b = T[a]\n    return cls(a, b)\n")
-    neg = ast.parse("def parse(cls, data):\n    (a, b) = unpack('<2H', data)\n    if b & 1:\n        b = 72\n    a = a & 3\n    return cls(a, b)\n")
+    neg = ast.parse("def parse(cls, data):\n    if len(data) > 4:\n        (a, b) = unpack('<2H', data)\n        if b & 1:\n            b = 72\n        a = a & 3\n    else:\n        a = 0\n        b = 5\n    return cls(a, b)\n")
     if len([1 for _f, nm, _n in hits(pos) if nm]) != 1 or [1 for _f, nm, _n in hits(neg) if nm]:
         raise AnalysisError("wire-field-replaced: embedded examples no longer behave (positive must match once, guarded twin must not)")
     cnt = 0
